@@ -89,11 +89,20 @@ def _call(f, args):
             return 'exc', e
 
 
-def compare_twins(rec, label, f1, f2, args, via):
-    a1 = _copy_args(args)
-    a2 = _copy_args(args)
+def compare_twins(rec, label, f1, f2, args, via, originals_to=1):
+    # the scheduled routine receives the caller's own argument objects, exactly as the real
+    # calling code passes them (a routine that remembers something about an array it has seen
+    # before meets that array again); the twin works on copies
+    before = _copy_args(args)
+    if originals_to == 1:
+        a1, a2 = list(args), _copy_args(args)
+    else:
+        a1, a2 = _copy_args(args), list(args)
     s1, r1 = _call(f1, a1)
     s2, r2 = _call(f2, a2)
+    for u, v in zip(before, args):
+        if isinstance(u, np.ndarray) and (u.shape != v.shape or u.tobytes() != v.tobytes()):
+            v[...] = u      # keep the caller's data intact for the rest of the run (mutation is C13's business)
     rec.compared += 1
     rec.probe('twin:' + label)
     n1, n2 = norm(r1), norm(r2)
@@ -164,10 +173,14 @@ def generate(prop, rng, tier):
     ops = []
     for _ in range(nops):
         q = rng.random()
-        if q < 0.55:
-            ops.append(api._gen_call(rng, wp, pool, allow_auto=True))
+        if q < 0.50:
+            ops.append(api._gen_call(rng, wp, pool, allow_auto=True, no_reconcile=True))
+        elif q < 0.56:
+            k = rng.randrange(len(pool))
+            ops.append({'op': 'mutate', 'i': k,
+                        's': gen.gen_spikes(rng, wp, n=len(pool[k]) if rng.random() < 0.7 else None)})
         elif q < 0.65:
-            c = api._gen_call(rng, wp, pool)
+            c = api._gen_call(rng, wp, pool, no_reconcile=True)
             c['op'] = 'e2e'
             ops.append(c)
         else:
@@ -239,7 +252,7 @@ def _gen_direct(rng, wp, pool):
                        'order_profile', 'dir_profiles', 'isi_distance', 'spike_distance', 'coincidence_value',
                        'spike_train_order', 'spike_directionality'])
     return {'op': 'direct', 'what': what, 'sel': sel, 'MRTS': num_mrts, 'max_tau': max_tau,
-            'RI': rng.choice([0, 1, False, True])}
+            'RI': rng.choice([0, 1, False, True]), 'orig': rng.choice([1, 2])}
 
 
 # ----------------------------------------------------------------------
@@ -247,36 +260,49 @@ def execute(world, run, prop=None):
     prop = prop or run['property']
     rec = Recorder(prop)
     spk = world.spk
-    specs = run['init']['pool']
+    specs = [dict(sp) for sp in run['init']['pool']]
     events = []
     plan = BackendPlan(run['swarm']['built'], run['faults'].get('flips'))
     shadow = Shadow(world, rec)
-    fired = dict(plan.fired)
     from .. import _rt
     _rt.AUDIT[0] = bool(run['swarm'].get('audit'))
     if _rt.AUDIT[0]:
         rec.probe('bounds_audit_run')
     try:
-      with world.run_context(plan, events, shadow):
-          pool = api.make_trains(spk, specs)
-          for step, op in enumerate(run['ops']):
-              rec.step = step
-              if op['op'] == 'call':
-                  st, r = api.try_invoke(spk, pool, op['fn'], op['form'], op['sel'], op['kw'])
-                  rec.log(('call', op['fn'], op['form'], st, digest(norm(r))))
-                  if st == 'exc' and isinstance(r, ImportError):
-                      rec.violate('C12.silent_fallback', {'op': op, 'exception': norm(r),
-                                                          'built': run['swarm']['built']},
-                                  {'fn': op['fn']})
-              elif op['op'] == 'e2e':
-                  _op_e2e(world, spk, rec, op, pool, specs, plan, events, shadow)
-              else:
-                  _op_direct(world, spk, rec, op, pool, specs)
+        with world.run_context(plan, events, shadow):
+            pool = api.make_trains(spk, specs)
+            for step, op in enumerate(run['ops']):
+                rec.step = step
+                _exec_op(world, spk, rec, run, op, pool, specs, plan, events, shadow)
     finally:
         _rt.AUDIT[0] = False
     fired = dict(plan.fired)
     rec.log(('events', len(events), digest(events)))
     return rec, fired
+
+
+def _exec_op(world, spk, rec, run, op, pool, specs, plan, events, shadow):
+    if op['op'] == 'mutate':
+        # the caller edits one of its (valid) trains between calls, in place when the length allows
+        i = op['i'] % len(pool)
+        new = np.array(op['s'], dtype=float)
+        if len(new) == len(pool[i].spikes):
+            pool[i].spikes[...] = new
+        else:
+            pool[i].spikes = new
+        specs[i] = {'s': list(op['s']), 'e': specs[i]['e']}
+        rec.log(('mutate', i))
+    elif op['op'] == 'call':
+        st, r = api.try_invoke(spk, pool, op['fn'], op['form'], op['sel'], op['kw'])
+        rec.log(('call', op['fn'], op['form'], st, digest(norm(r))))
+        if st == 'exc' and isinstance(r, ImportError):
+            rec.violate('C12.silent_fallback', {'op': op, 'exception': norm(r),
+                                                'built': run['swarm']['built']},
+                        {'fn': op['fn']})
+    elif op['op'] == 'e2e':
+        _op_e2e(world, spk, rec, op, pool, specs, plan, events, shadow)
+    else:
+        _op_direct(world, spk, rec, op, pool, specs)
 
 
 def _op_e2e(world, spk, rec, op, pool, specs, plan, events, shadow):
@@ -376,7 +402,7 @@ def _op_direct(world, spk, rec, op, pool, specs):
                                  [a.spikes, b.spikes, t0, t1, mt, M], 'spike_directionality_cython'),
     }
     f1, f2, args, label = table[what]
-    compare_twins(rec, label, f1, f2, args, 'direct')
+    compare_twins(rec, label, f1, f2, args, 'direct', originals_to=op.get('orig', 1))
     rec.log(('direct', what))
 
 
@@ -422,3 +448,23 @@ def simplify(run):
                     r = json.loads(json.dumps(run))
                     r['ops'][oi][key] = 0.0 if key != 'RI' else 0
                     yield r
+
+
+def vary(run, rng):
+    ops = run['ops']
+    T = run['swarm']['wp']['T']
+    if not ops or rng.random() < 0.4:
+        return
+    import json as _json
+    for _ in range(rng.randint(1, 3)):
+        k = rng.randrange(len(ops))
+        o = _json.loads(_json.dumps(ops[k]))
+        if o['op'] == 'direct':
+            if 'MRTS' in o and rng.random() < 0.5:
+                o['MRTS'] = rng.choice([0.0, T / 32, T / 4, T])
+        else:
+            kw = o.get('kw', {})
+            for key in ('MRTS', 'max_tau'):
+                if key in kw and rng.random() < 0.4:
+                    kw[key] = rng.choice([0.0, T / 32, T / 4, T])
+        ops.insert(rng.randint(k + 1, len(ops)), o)
